@@ -551,6 +551,10 @@ func aggregate(id, tier string, seed int64, pc *PropCfg, bo *buildOut, results [
 			}
 			if v := deathViolation(id, wr); v != nil {
 				viols = append(viols, v)
+			} else if id != "C02" && wr.Raw == nil && (strings.Contains(wr.Output, "out of memory") || wr.Hang != "") {
+				// resource exhaustion inside a decode step is C02's concern
+				tot.Inconclusive["worker-died-resource-exhaustion (C02's concern)"]++
+				tot.Runs++ // the run that died was executed
 			} else {
 				infra = append(infra, msg)
 			}
@@ -626,7 +630,11 @@ func aggregate(id, tier string, seed int64, pc *PropCfg, bo *buildOut, results [
 		annotate(v, bo.Report)
 		vv, _ := v["violation"].(map[string]interface{})
 		class := fmt.Sprint(vv["class"])
-		name := fmt.Sprintf("%s-%s-%v.json", id, sanitize(class), v["seed"])
+		seedStr := fmt.Sprint(v["seed"])
+		if f, ok := v["seed"].(float64); ok {
+			seedStr = strconv.FormatInt(int64(f), 10)
+		}
+		name := fmt.Sprintf("%s-%s-%s.json", id, sanitize(class), seedStr)
 		path := filepath.Join(dir, name)
 		b, _ := json.MarshalIndent(v, "", " ")
 		os.WriteFile(path, b, 0644)
@@ -677,10 +685,10 @@ func deathViolation(id string, wr *workerRes) map[string]interface{} {
 		msg = firstLines(wr.Hang, 30)
 	case strings.Contains(wr.Output, "out of memory") || strings.Contains(wr.Output, "cannot allocate memory"):
 		class = "out-of-memory"
-		msg = tailStr(wr.Output, 1500)
+		msg = fatalExcerpt(wr.Output)
 	case strings.Contains(wr.Output, "fatal error:") || strings.Contains(wr.Output, "stack overflow"):
 		class = "fatal-error"
-		msg = tailStr(wr.Output, 1500)
+		msg = fatalExcerpt(wr.Output)
 	default:
 		return nil
 	}
@@ -699,6 +707,32 @@ func deathViolation(id string, wr *workerRes) map[string]interface{} {
 		"violation": map[string]interface{}{"prop": id, "class": class, "key": class, "msg": msg}, "minimised": false,
 		"note": "the worker process died while executing this plan; replay re-executes it with the same choice seed",
 	}
+}
+
+// fatalExcerpt extracts the runtime's fatal message and the stack of the
+// goroutine that was running from a crashed worker's output.
+func fatalExcerpt(out string) string {
+	i := strings.Index(out, "runtime: out of memory")
+	if j := strings.Index(out, "fatal error:"); i < 0 || (j >= 0 && j < i) {
+		i = j
+	}
+	if i < 0 {
+		return tailStr(out, 1500)
+	}
+	ex := out[i:]
+	var keep []string
+	for _, l := range strings.Split(ex, "\n") {
+		if strings.Contains(l, "/verifsim/simrt") || strings.Contains(l, "runtime/") || strings.HasPrefix(strings.TrimSpace(l), "runtime.") {
+			if !strings.Contains(l, "fatal") && !strings.Contains(l, "out of memory") {
+				continue
+			}
+		}
+		keep = append(keep, l)
+		if len(keep) > 30 || (len(keep) > 6 && strings.HasPrefix(l, "goroutine ") && !strings.Contains(l, "running")) {
+			break
+		}
+	}
+	return strings.Join(keep, "\n")
 }
 
 func annotate(v map[string]interface{}, rep *instr.Report) {
